@@ -350,6 +350,27 @@ func runC02(c *Cfg) {
 		r.Nontrivial("sv:" + scenSig(sv[i]))
 	})
 	hugeBudgetCases(c, "C02")
+	// the budget a node's own prep chooses (whatever it was built with) is the budget of this run — also on the second
+	// run of the same node, which chooses again
+	var bp []*scen.Scenario
+	for kind := 0; kind < scen.NumScriptedKinds; kind++ {
+		if !scen.KindHasRetry(kind) || kind == scen.KBaseOverride {
+			continue
+		}
+		for n := 1; n <= 4; n++ {
+			for k := 1; k <= n+1; k++ {
+				fb := scen.KindCanFB(kind) && (kind < scen.KFnOptRes || (n+k)%2 == 0)
+				ns := scen.NodeSpec{Kind: kind, N: n, HasFB: fb, PrepSetsN: true, Visits: []scen.Visit{{FirstOK: k, Post: "go"}, {FirstOK: n + 1 - k%2, FBErr: k%2 == 0, Post: "go"}}}
+				bp = append(bp, &scen.Scenario{Nodes: []scen.NodeSpec{ns}, Root: 0, Runs: 2})
+				bp = append(bp, &scen.Scenario{Nodes: []scen.NodeSpec{ns, {Kind: scen.KFlow, N: 1, Flow: &scen.FlowSpec{Start: 0}}}, Root: 1, Runs: 2})
+			}
+		}
+	}
+	parallel(c, len(bp), func(i int) {
+		judgeFor(c, "C02", "budget-chosen-in-prep", bp[i])
+		r.Count("budget_chosen_in_prep.cases", 1)
+		r.Nontrivial("bp:" + scenSig(bp[i]))
+	})
 	// flows with a retry budget of their own around retrying, always-failing nodes: every activation of the inner
 	// node gets its own full budget (attempt counters are per run of a node)
 	var fr []*scen.Scenario
